@@ -26,7 +26,7 @@ cfg("single_t", inv=LIGHT, FactorNames="<- N_all", TargetNames="<- N_all", MaxTF
 cfg("pair_q", inv=LIGHT, FactorNames="<- N_q7", TargetNames="<- N_q7", MaxFactors="= 2", MaxTFactors="= 2", Plan="<- Plan_conv1")
 cfg("pair_t", inv=LIGHT, FactorNames="<- N_mid", TargetNames="<- N_small", MaxFactors="= 2", MaxTFactors="= 2", Plan="<- Plan_conv1")
 cfg("triple_t", inv=LIGHT, FactorNames="<- N_q7", TargetNames="<- N_q7", MaxFactors="= 3", MaxTFactors="= 3", Plan="<- Plan_conv1")
-cfg("hist_q", inv=LIGHT, MaxFactors="= 1", MaxTFactors="= 1", Mags="<- M_one", ScaleKs="<- K_one", Kinds='= {"list", "dict", "objarray", "array", "array2d"}', Plan="<- Plan_hist3q", Powers="<- P_pm1",
+cfg("hist_q", inv=LIGHT, MaxFactors="= 1", MaxTFactors="= 1", Mags="<- M_one", ScaleKs="<- K_zero", Kinds='= {"list", "dict", "objarray", "array", "array2d", "empty_list", "empty_dict"}', Plan="<- Plan_hist3q", Powers="<- P_pm1",
     TargetPowers="<- P_pm1", TargetNames="<- N_small")
 cfg("hist_t", inv=LIGHT, FactorNames="<- N_q7", TargetNames="<- N_small", MaxFactors="= 1", MaxTFactors="= 1", Mags="<- M_one", ScaleKs="<- K_one",
     Kinds="<- Kinds_all", Plan="<- Plan_hist3t")
@@ -35,7 +35,9 @@ cfg("reg_t", inv=LIGHT, FactorNames="<- N_q7", MaxFactors="= 2", RegPool="<- Reg
 cfg("derived_q", inv=LIGHT, FactorNames='= {"m"}', Powers="<- P_one", RegPool="<- Regs12s", Keys="<- Keys_all", Plan="<- Plan_derived")
 cfg("derived_t", inv=LIGHT, FactorNames='= {"m"}', Powers="<- P_one", RegPool="<- Regs108s", Keys="<- Keys_all", Plan="<- Plan_derived")
 cfg("own_t", inv=LIGHT, FactorNames='= {"m"}', Powers="<- P_one", RegPool="<- RegsOwn", Keys="<- Keys_all", Plan="<- Plan_derived")
-cfg("help_q", inv=LIGHT, FactorNames="<- N_tiny", MaxFactors="= 1", Powers="<- P_pm1", TargetPowers="<- P_pm1", Mags="<- M_pos", HelperNames="<- H_all", Plan="<- Plan_help2")
+cfg("reg2_q", inv=LIGHT, FactorNames='= {"m", "molar", "J"}', MaxFactors="= 1", Powers="<- P_pm1", RegPool="<- Regs2s",
+    Keys='= {"energy", "concentration"}', Plan="<- Plan_reg2")
+cfg("help_q", inv=LIGHT, FactorNames="<- N_tiny", MaxFactors="= 1", Powers="<- P_pm1", TargetPowers="<- P_pm1", Mags="<- M_pos0", HelperNames="<- H_all", Plan="<- Plan_help2")
 cfg("help_t", inv=LIGHT, FactorNames="<- N_small", TargetNames="<- N_small", MaxFactors="= 1", MaxTFactors="= 2", Powers="<- P_pm1", TargetPowers="<- P_pm1",
     Mags="<- M_pos", HelperNames="<- H_all", Plan="<- Plan_help3")
 cfg("plain", inv=LIGHT, FactorNames="= {}", MaxFactors="= 0", Mags="<- M_zero", ScaleKs="<- K_one", Plan="<- Plan_plain")
